@@ -149,10 +149,13 @@ class State:
         self.depth = 0
         self.axiom_hooks = []
         self.capture = None  # when a list: assumptions are collected (inside a quantifier body) instead of asserted
+        self.has_quant = False  # a quantified formula is among the assumptions: sat-direction checks tend to time out
+        self.qf_solver = z3.Solver()  # the quantifier-free assumptions only (a weaker context: `unsat` here is `unsat` there)
 
     # ---- fresh symbols
     def fresh_name(self, hint):
         self.counter += 1
+        hint = hint.replace("'", "^")  # `'` is not legal in an unquoted SMT-LIB symbol (cvc5 rejects the script)
         return f"{hint}!{self.counter}"
 
     def fresh_int(self, hint="i"):
@@ -179,6 +182,10 @@ class State:
             f = f.e
         if z3.is_true(f):
             return
+        if _has_quantifier(f):
+            self.has_quant = True
+        else:
+            self.qf_solver.add(f)
         self.pc.append(f)
         self.solver.add(f)
 
@@ -193,6 +200,17 @@ class State:
         self.ex.solver_time += time.time() - t0
         self.ex.queries += 1
         return r, model
+
+    def refuted_qf(self, extra, timeout_ms=1000):
+        """Is `extra` inconsistent with the quantifier-free part of the path condition? (cheap and sound: used where a
+        full check would mostly time out because of quantified assumptions)"""
+        self.qf_solver.set("timeout", timeout_ms)
+        self.qf_solver.push()
+        self.qf_solver.add(extra)
+        r = self.qf_solver.check()
+        self.qf_solver.pop()
+        self.ex.queries += 1
+        return r == z3.unsat
 
     def path_key(self):
         return tuple(d[0] for d in self.decisions[: self.pos])
@@ -214,7 +232,9 @@ class State:
                 if z3.is_true(c):
                     feas.append(i)
                     continue
-                r, _ = self._check(c, self.cfg.branch_timeout_ms)
+                # feasibility is an optimisation (an infeasible path only costs time): with quantified assumptions
+                # a `sat` answer is rarely reached, so do not wait long for it
+                r, _ = self._check(c, min(self.cfg.branch_timeout_ms, 250) if self.has_quant else self.cfg.branch_timeout_ms)
                 if r != z3.unsat:
                     feas.append(i)
             if not feas:
@@ -253,8 +273,9 @@ class State:
             raise PyRaise(SExc(exc_cls, (msg,), site="builtin"))
 
     # ---- obligations
-    def oblige(self, name, formula, kind="post"):
-        """Record and check `pc => formula`; afterwards assume it."""
+    def oblige(self, name, formula, kind="post", assume_after=True):
+        """Record and check `pc => formula`; afterwards assume it (unless `assume_after=False`: contracts with
+        `independent_posts = True` keep proved quantified clauses out of the later queries of the same path)."""
         key = (name, self.path_key())
         if isinstance(formula, SBool):
             formula = formula.e
@@ -291,7 +312,17 @@ class State:
                         ob.detail = f"counterexample to: {_short(formula)}"
                 else:
                     ob.status = "undecided"
-                    if self.cfg.use_cvc5:
+                    # the incremental (push/pop) solver gave up: one more try with a fresh, non-incremental z3
+                    # (full preprocessing), which decides many quantified queries at once
+                    fs = z3.Solver()
+                    fs.set("timeout", self.cfg.oblig_timeout_ms)
+                    fs.add(*self.pc)
+                    fs.add(z3.Not(formula))
+                    if fs.check() == z3.unsat:
+                        ob.status, ob.backend = "discharged", "z3-fresh"
+                    self.ex.solver_time += time.time() - t0
+                    self.ex.queries += 1
+                    if ob.status == "undecided" and self.cfg.use_cvc5:
                         smt = self.to_smt2(z3.Not(formula))
                         r2 = cvc5_check(smt)
                         if r2 == "unsat":
@@ -303,7 +334,8 @@ class State:
                     self.ex.kept_smt2 += 1
                     ob.smt2 = self.to_smt2(z3.Not(formula))
             ob.time = time.time() - t0
-        self.assume(formula)
+        if assume_after:
+            self.assume(formula)
         return ob
 
     def known_conds(self, known):
@@ -395,6 +427,23 @@ class State:
     # ---- ghost trace
     def event(self, *ev):
         self.trace.append(ev)
+
+
+def _has_quantifier(f, cap=4000):
+    """Does the z3 formula contain a quantifier? (bounded search; a huge formula counts as 'yes')"""
+    todo, seen = [f], set()
+    while todo:
+        e = todo.pop()
+        if z3.is_quantifier(e):
+            return True
+        k = e.get_id()
+        if k in seen:
+            continue
+        seen.add(k)
+        if len(seen) > cap:
+            return True
+        todo.extend(e.children())
+    return False
 
 
 def _short(f, n=300):
